@@ -2,6 +2,9 @@ package world
 
 import (
 	"os"
+	"path/filepath"
+
+	"github.com/bokysan/socketace/v2/internal/args"
 
 	"crypto/tls"
 	"fmt"
@@ -30,6 +33,10 @@ import (
 
 // Options describes one client/server world.
 type Options struct {
+	// CertFiles: "" = certificate material is given inline (PEM text in the configuration);
+	// "abs" = through files named by absolute paths; "rel" = through files named relative to
+	// the configuration file's directory (args.General.ConfigurationFilePath).
+	CertFiles string
 	Carrier   string // stream | ws | stdio | dns
 	TLS       bool   // the carrier itself is TLS (tcp+tls, wss, stdio+tls)
 	Channels  []string
@@ -83,6 +90,7 @@ type World struct {
 	HTTP     *server.HttpServer
 	IoSrv    *server.IoServer
 	Dns      *DnsWorld
+	CertDir  string // directory of the certificate files (Options.CertFiles)
 
 	mu         sync.Mutex
 	Apps       []*Endpoint
@@ -165,6 +173,11 @@ func New(o Options) (*World, error) {
 		w.CliCfg.Certificate, w.CliCfg.PrivateKey = o.PKI.ForeignCl.CertPEM, o.PKI.ForeignCl.KeyPEM
 	}
 	w.CliCfg.InsecureSkipVerify = o.Insecure
+	if o.CertFiles != "" {
+		if err := w.certsToFiles(o); err != nil {
+			return nil, err
+		}
+	}
 
 	filtered, err := w.SrvChans.Filter(o.AllowList)
 	if err != nil {
@@ -268,6 +281,56 @@ func New(o Options) (*World, error) {
 	}
 	w.Ups = ClientUpstreams([]upstream.Upstream{w.Front}, o.MustSecure, o.Insecure)
 	return w, nil
+}
+
+// certsToFiles moves the inline certificate material of both configurations into files.
+func (w *World) certsToFiles(o Options) error {
+	dir, err := os.MkdirTemp("", "verif-certs-")
+	if err != nil {
+		return err
+	}
+	w.CertDir = dir
+	if o.CertFiles == "rel" {
+		args.General.ConfigurationFilePath = filepath.Join(dir, "socketace.yml")
+	}
+	n := 0
+	move := func(inline, file *string, decoy string) error {
+		if *inline == "" {
+			return nil
+		}
+		n++
+		name := fmt.Sprintf("f%d.pem", n)
+		if err := os.WriteFile(filepath.Join(dir, name), []byte(*inline), 0600); err != nil {
+			return err
+		}
+		if o.CertFiles == "rel" {
+			*file = name
+		} else {
+			*file = filepath.Join(dir, name)
+		}
+		*inline = decoy
+		return nil
+	}
+	for _, c := range []*cert.Config{&w.SrvCfg.Config, &w.CliCfg.Config} {
+		if err := move(&c.CaCertificate, &c.CaCertificateFile, ""); err != nil {
+			return err
+		}
+		if err := move(&c.Certificate, &c.CertificateFile, ""); err != nil {
+			return err
+		}
+		if err := move(&c.PrivateKey, &c.PrivateKeyFile, ""); err != nil {
+			return err
+		}
+	}
+	return nil
+}
+
+// RemoveCertFiles deletes the files written for Options.CertFiles.
+func (w *World) RemoveCertFiles() {
+	if w.CertDir != "" {
+		os.RemoveAll(w.CertDir)
+		args.General.ConfigurationFilePath = ""
+	}
 }
 
 func (w *World) onDial(c, s *netsim.MemConn) {
